@@ -207,6 +207,7 @@ void clientConnect(Client* c) {
   Client* cc = c;
   s->onWrite = [cc](const uint8_t* p, size_t n) {
     cc->rx.append(reinterpret_cast<const char*>(p), n);
+    g_rd->rxAll[cc->id].append(reinterpret_cast<const char*>(p), n);
     clientCheckResponses(cc);
   };
   s->onClose = [cc]() {
@@ -309,7 +310,7 @@ static void runL3(const plan::Plan& p, hz::RunResult* res, bool verbose) {
     else if (l.kind == "react") bus.reacts.push_back(simbus::reactFromLine(l, nextId++));
   }
   // heating system: registers with a fixed response length per (ZZ, PBSB, ID prefix); values unique per exchange
-  struct Reg { uint8_t zz, pb, sb; Bytes id; int len; std::string gen; std::string layout; };
+  struct Reg { uint8_t zz, pb, sb; Bytes id; int len; std::string gen; std::string layout; int val; };
   auto* regs = new std::vector<Reg>();
   for (auto& l : p.lines) {
     if (l.kind != "slave") continue;
@@ -321,6 +322,7 @@ static void runL3(const plan::Plan& p, hz::RunResult* res, bool verbose) {
     r.len = static_cast<int>(l.num("len", 1));
     r.gen = l.get("gen", "count");
     r.layout = l.get("layout");
+    r.val = static_cast<int>(l.num("val", 0));
     regs->push_back(r);
   }
   auto* exCounter = new uint64_t(0);
@@ -351,7 +353,8 @@ static void runL3(const plan::Plan& p, hz::RunResult* res, bool verbose) {
     for (int i = 0; i < best->len; i++) {
       uint8_t v = static_cast<uint8_t>(h >> (8 * (i % 8)));
       bool ascii = best->gen == "ascii" || best->gen == "fixedascii" || (static_cast<size_t>(i) < kinds.size() && kinds[static_cast<size_t>(i)] == 'a');
-      if (ascii) v = static_cast<uint8_t>('A' + (v % 26));
+      if (best->gen == "const") v = static_cast<uint8_t>(best->val >> (8 * i));   // a register with a value fixed by the plan
+      else if (ascii) v = static_cast<uint8_t>('A' + (v % 26));
       else if (best->gen == "small") v = static_cast<uint8_t>(v % 100);
       else if (v == 0xff || v == 0x80 || v == 0x7f) v = static_cast<uint8_t>(v ^ 0x15);   // stay away from replacement values
       d.push_back(v);
